@@ -19,7 +19,8 @@ def _convert_name_to_convention(
     naming_convention: NamingConvention,
     is_class_name: bool = False,
 ) -> str:
-    if name == "_" or naming_convention == NamingConvention.PYTHON:
+    # Names that only consist of underscores (e.g. the placeholder names "_" and "__") have nothing to convert
+    if not name.strip("_") or naming_convention == NamingConvention.PYTHON:
         return name
 
     # Count underscores in front and behind the name
